@@ -14,10 +14,19 @@ Correspondence (driver `drv_pth`):
   * `hist`   — histories mixing data and metadata operations: for every path-taking call the
                model says `rej` (some path argument has a reserved segment) or `pass`;
                `rej` must be an error on the real code.
+  * `attrs`  — (oracle only, no model lines) attribute sweep: after a history, on every user
+               node, every public attribute of the *raw* driver object (dir() of the h5py /
+               IH5 object and of its class, plus the zero-argument collection hooks) is
+               requested through the wrapper. Whatever is not refused is examined for what it
+               hands out: node-valued attributes, and for callables the names / nodes passed to
+               a recording callback, returned, or yielded. For group methods outside the known
+               protocol, reserved paths are tried in the leading argument positions.
 Oracle (real code only, no model): (a) a call with a reserved segment in any path-typed
 argument raises and leaves the raw dump of `mc.__wrapped__` unchanged; (b) no listing / visit
 result contains a reserved segment; (c) after every step the user-visible tree equals a plain
-`h5py.File` driven by the same user operations (reserved calls are not user operations).
+`h5py.File` driven by the same user operations (reserved calls are not user operations);
+(d) no attribute of the raw object reachable through the wrapper hands out a reserved name or a
+bookkeeping node, and none addresses a bookkeeping entity when given a reserved path.
 """
 import os
 
@@ -561,6 +570,229 @@ def impl_plant(case):
         shutil.rmtree(tmp, ignore_errors=True)
 
 
+# ----------------------------------------------------------------------------- attribute sweep
+# Methods whose path arguments are enumerated position by position by `probe_ops` (the sweep
+# does not repeat the reserved-argument probe for them; what they hand out is examined all the same).
+KNOWN_PROTOCOL = {"__getitem__", "get", "__contains__", "__setitem__", "__delitem__", "create_group", "require_group", "create_dataset",
+                  "require_dataset", "move", "copy"}
+# zero-argument hooks of collections.abc (Iterable / Reversible / Sized) - what iter(), reversed(), len() use
+COLLECTION_HOOKS = ["__iter__", "__reversed__", "__len__"]
+# ends the session, nothing to observe afterwards: obtained but not called
+NOT_CALLED = {"close", "__exit__", "__del__"}
+MAX_YIELD = 400
+
+
+def _node_name(v):
+    """absolute name of v if v looks like an HDF5 node (raw or wrapped), else None"""
+    try:
+        n = getattr(v, "name", None)
+        if isinstance(n, str) and n.startswith("/") and hasattr(v, "attrs"):
+            return n
+    except Exception:
+        pass
+    return None
+
+
+def _handed_out(v, names_are_nodes, acc, depth=0):
+    """Collect what a value hands out: names of node objects and - for groups, whose protocol is
+    a mapping of member names - strings. Containers, views, iterators and generators are walked."""
+    import collections.abc as cabc
+    if depth > 3 or len(acc) > MAX_YIELD:
+        return
+    if isinstance(v, str):
+        if names_are_nodes:
+            acc.append(v)
+        return
+    nn = _node_name(v)
+    if nn is not None:
+        acc.append(nn)
+        return
+    if isinstance(v, (bytes, bytearray, int, float, bool, type(None))):
+        return
+    if isinstance(v, dict):
+        v = list(v.items())
+    if isinstance(v, (list, tuple, set, frozenset, cabc.MappingView, cabc.Iterator)):
+        try:
+            for n, x in enumerate(v):
+                if n > MAX_YIELD:
+                    break
+                _handed_out(x, names_are_nodes, acc, depth + 1)
+        except Exception:
+            pass
+
+
+def _max_positional(f):
+    """how many positional arguments f can take (a large number when unknown / *args)"""
+    import inspect
+    try:
+        sig = inspect.signature(f)
+    except (TypeError, ValueError):
+        return 99
+    n = 0
+    for prm in sig.parameters.values():
+        if prm.kind == prm.VAR_POSITIONAL:
+            return 99
+        if prm.kind in (prm.POSITIONAL_ONLY, prm.POSITIONAL_OR_KEYWORD):
+            n += 1
+    return n
+
+
+def _sweep_names(node):
+    raw = node.__wrapped__
+    names = set()
+    for src in (raw, type(raw)):
+        try:
+            names |= set(dir(src))
+        except Exception:
+            pass
+    pub = sorted(n for n in names if not n.startswith("_"))
+    return pub + [h for h in COLLECTION_HOOKS if h in names]
+
+
+def _reserved_in_raw(rawdump):
+    return sorted(k for k in rawdump if k != "/" and has_reserved(k))
+
+
+def impl_attrs(case):
+    """After the history `case["ops"]`: on every user node (groups first), request every public
+    attribute of the raw object through the wrapper and examine what is handed out."""
+    import shutil
+    import tempfile
+    tmp = tempfile.mkdtemp(prefix="c08a_")
+    run = None
+    tags = set()
+    cwd = os.getcwd()
+    try:
+        os.chdir(tmp)
+        run = _Run(dict(case, kind="hist", no_ref=True), tmp)
+        for i, op in enumerate(case["ops"]):
+            run.step(i, op)
+        oracle = list(run.oracle)
+        nstep = len(case["ops"])
+        only = case.get("only")  # [[node, attr]…] restriction used by the shrinker
+
+        def hit(kind, **kw):
+            d = dict(kind=kind, step=nstep, op=["attr-sweep"])
+            d.update(kw)
+            oracle.append(d)
+
+        def alive():
+            try:
+                list(run.mc.keys())
+                return True
+            except Exception:
+                return False
+
+        user = dump(run.mc)
+        groups = ["/"] + sorted("/" + k for k, d in user.items() if k != "/" and d[0] == "g")
+        dsets = sorted("/" + k for k, d in user.items() if d[0] == "d")
+        # prefer nodes that carry metadata / have children with metadata (listing has something to filter)
+        rawd = dump(run.raw)
+        resv = _reserved_in_raw(rawd)
+
+        def weight(g):
+            pre = g.rstrip("/") + "/"
+            return -sum(1 for r in resv if ("/" + r).startswith(pre) and "/" not in ("/" + r)[len(pre):])
+        groups = ["/"] + sorted((g for g in groups if g != "/"), key=lambda g: (weight(g), g))
+        targets = groups[: case.get("max_groups", 5)] + dsets[: case.get("max_dsets", 2)]
+        rec_calls = 0
+        for tpath in targets:
+            if not alive():
+                tags.add("container-gone")
+                break
+            node = run.mc if tpath == "/" else run.mc[tpath]
+            is_grp = not _is_ds(node)
+            served = refused = 0
+            for attr in _sweep_names(node):
+                if only is not None and [tpath, attr] not in only:
+                    continue
+                try:
+                    val = getattr(node, attr)
+                except Exception:
+                    refused += 1
+                    continue
+                served += 1
+                # (1) the value itself
+                got = []
+                _handed_out(val, False, got)
+                bad = sorted(set(x for x in got if has_reserved(x)))
+                if bad:
+                    hit("attribute-exposes-reserved", via=attr, node=tpath, how="value", names=bad[:5])
+                if not callable(val) or attr in NOT_CALLED:
+                    continue
+                # (2) what the callable hands out: to a recording callback, as result, by iteration
+                for how in ("callback", "noargs"):
+                    seen = []
+
+                    def rec(*a, **kw):
+                        _handed_out(list(a) + list(kw.values()), is_grp, seen)
+                        return None
+                    try:
+                        r = val(rec) if how == "callback" else val()
+                        _handed_out(r, is_grp, seen)
+                    except Exception:
+                        pass
+                    rec_calls += 1
+                    bad = sorted(set(x for x in seen if has_reserved(x)))
+                    if bad:
+                        tags.add("exposed")
+                        hit("attribute-exposes-reserved", via=attr, node=tpath, how=how, names=bad[:5], count=len(bad))
+                    if not alive():
+                        break
+                if not alive():
+                    break
+                # (3) group methods outside the enumerated protocol: reserved paths as leading arguments
+                if not is_grp or attr in KNOWN_PROTOCOL or attr.startswith("__"):
+                    continue
+                pre = tpath.rstrip("/") + "/"
+                inside = [("/" + r)[len(pre):] for r in resv if ("/" + r).startswith(pre)]
+                shapes = (["/" + r for r in resv[:2]] + inside[:2] + ["metador_x", "zz/metador_x"])
+                try:
+                    some_ds = run.mc[dsets[0]] if dsets else 7
+                except Exception:
+                    some_ds = 7
+                npos = _max_positional(val)
+                if npos == 0:
+                    continue  # takes no argument at all: nothing can be addressed through it
+                before = dump(run.raw)
+                for shp in shapes:
+                    for args in ((shp,), (shp, 7), (shp, some_ds), ("zz_fill", shp)):
+                        if len(args) > npos:
+                            continue
+                        seen = []
+                        try:
+                            r = val(*args)
+                            _handed_out(r, False, seen)
+                            res = "ok"
+                        except Exception:
+                            res = "err"
+                        try:
+                            after = dump(run.raw)
+                        except Exception:
+                            after = None
+                        shown = [a if isinstance(a, (str, int)) else "<dataset>" for a in args]
+                        bad = sorted(set(x for x in seen if has_reserved(x)))
+                        if bad:
+                            hit("reserved-accepted", method=attr, node=tpath, args=shown, returned=bad[:5])
+                        if after is not None:
+                            ch = sorted(k for k in set(before) | set(after) if has_reserved(k) and before.get(k) != after.get(k))
+                            if ch:
+                                hit("reserved-effect", method=attr, node=tpath, args=shown, outcome=res, changed=ch[:5])
+                            before = after
+                        tags.add("reserved-arg-probe")
+            tags.add(("group" if is_grp else "dataset") + ":served=%d" % served)
+            if refused:
+                tags.add(("group" if is_grp else "dataset") + ":refused-some")
+        if rec_calls:
+            tags.add("callables-probed")
+        return dict(out=[], oracle=oracle[:6], tags=sorted(tags))
+    finally:
+        os.chdir(cwd)
+        if run is not None:
+            run.close()
+        shutil.rmtree(tmp, ignore_errors=True)
+
+
 def impl(case):
     k = case["kind"]
     if k == "hist":
@@ -569,6 +801,8 @@ def impl(case):
         return impl_paths(case)
     if k == "plant":
         return impl_plant(case)
+    if k == "attrs":
+        return impl_attrs(case)
     raise RuntimeError("unknown case kind")
 
 
@@ -617,6 +851,8 @@ def compare(case, ir, mo):
         # the driver also prints one `ok` per planted node
         n = len(case["nodes"]) + len(case.get("rawops", []))
         return core.default_compare(case, dict(out=["ok"] * n + ir["out"]), mo)
+    if case["kind"] == "attrs":
+        return None  # oracle only
     if case["kind"] == "hist":
         a = ir["out"]
         if len(a) != len(mo):
@@ -908,15 +1144,35 @@ def hist_cases(ctx):
     return cases
 
 
+def attrs_cases(ctx):
+    """attribute sweep after the fixed setup (metadata at root / group / datasets) and after
+    random histories, on both drivers"""
+    rng = ctx.rng
+    cases = [dict(kind="attrs", drv=drv, ops=list(SETUP), group="setup") for drv in ("h5", "ih5")]
+    n = 6 if ctx.quick else 300
+    for i in range(n):
+        drv = "h5" if i % 3 else "ih5"
+        k = rng.randrange(6, 24 if drv == "h5" else 14)
+        # user operations only matter as a way to reach states: bias to metadata-carrying trees
+        ops = [op for op in rand_hist(rng, drv, k) if op[0] not in ("getitem", "get", "in", "ls")]
+        pre = list(SETUP[: rng.randrange(0, len(SETUP) + 1)]) if rng.random() < 0.5 else []
+        cases.append(dict(kind="attrs", drv=drv, ops=pre + ops, group="rand"))
+    return cases
+
+
 def gen_cases(ctx):
-    return proto_cases(ctx) + paths_cases(ctx) + plant_cases(ctx) + hist_cases(ctx)
+    return proto_cases(ctx) + paths_cases(ctx) + plant_cases(ctx) + hist_cases(ctx) + attrs_cases(ctx)
 
 
 def run(ctx):
     ctx.rule = ("cases: (paths) the four path functions of container/utils.py on fixed + generated strings; (plant) raw trees with "
                 "reserved-named nodes planted through mc.__wrapped__, every listing primitive through the wrapper; (hist) fixed setup with metadata at "
                 "root/group/dataset followed by every path-taking protocol method x reserved shape x argument position (proto), the same with "
-                "near-miss names (near), and random histories mixing data ops, metadata ops, reserved and near-miss paths (rand), on h5py.File and IH5Record. "
+                "near-miss names (near), and random histories mixing data ops, metadata ops, reserved and near-miss paths (rand), on h5py.File and IH5Record; "
+                "(attrs) after the fixed setup and after random histories, every public attribute of the raw driver object (dir() of the h5py/IH5 "
+                "object and class + __iter__/__reversed__/__len__) requested through the wrapper on every user node: refused, or examined for the "
+                "names/nodes it hands out (value, recording callback, result, iteration) and, for group methods outside the enumerated protocol, "
+                "called with reserved paths in the leading positions. "
                 "Non-trivial = tagged: reserved path in a given method, nested reserved segment, near-miss accepted, metadata op succeeded, "
                 "listing that actually had something to filter.")
     ctx.trusted.append("harness/translate.py: Python ast -> Lean for is_internal_path/is_meta_base_path/to_meta_base_path/to_data_node_path and the "
@@ -927,6 +1183,7 @@ def run(ctx):
         "h5py reports node.name as the absolute '/'-joined path of the node (hypothesis of userView_hides: listed entries carry their absolute path)",
     ]
     ctx.exhaustive_spaces.append("protocol (17 call shapes incl. copy source/dest string/dest group+name=) x %d reserved shapes x both drivers on a fixed container with metadata at root, group and datasets" % (len(RESERVED_SHAPES) + len(RESERVED_SHAPES_REL_FOO)))
+    ctx.exhaustive_spaces.append("every public attribute of the raw object behind every swept node (root, groups, datasets of the fixed setup; both drivers)")
     cases = core.load_corpus(ID) + gen_cases(ctx)
     ctx.correspond("reserved-namespace", MOD, cases, lines, "drv_pth", compare=compare, timeout=120)
     for c in cases:
@@ -950,6 +1207,24 @@ def shrink(ctx, case, detail):
         ds = [d for d in r.get("ok", {}).get("oracle", []) if d.get("kind") == want]
         if ds:
             return dict(case, ops=ops), ds[0]
+    if case.get("kind") == "attrs":
+        # first the single (node, attribute) pair, then the history that leads to the state
+        def run_a(c):
+            r = pool.run_one(MOD, "impl", c, timeout=120)
+            return [d for d in r.get("ok", {}).get("oracle", []) if d.get("kind") == want] if "ok" in r else []
+        cur = case
+        at = detail.get("via") or detail.get("method")
+        if at and detail.get("node"):
+            c2 = dict(case, only=[[detail["node"], at]])
+            if run_a(c2):
+                cur = c2
+        if len(cur.get("ops", [])) > 1:
+            ops = core.ddmin(cur["ops"], lambda ops: bool(run_a(dict(cur, ops=ops))), max_tests=40)
+            cur = dict(cur, ops=ops)
+        ds = run_a(cur)
+        if ds:
+            return cur, ds[0]
+        return case, detail
     if case.get("kind") == "plant" and len(case.get("nodes", [])) > 1:
         def fails2(nodes):
             r = pool.run_one(MOD, "impl", dict(case, nodes=nodes), timeout=120)
